@@ -32,7 +32,12 @@ class StmtMixin:
         m = getattr(self, "st_" + type(s).__name__, None)
         if m is None:
             raise Unsupported("statement %s" % type(s).__name__)
-        yield from m(st, s, cx)
+        try:
+            yield from m(st, s, cx)
+        except Unsupported as e:
+            if " [in " not in str(e):
+                raise Unsupported("%s [in %s%s line %d]" % (e, (cx.cls + ".") if cx.cls else "", cx.fn.name if cx.fn else "?", getattr(s, "lineno", 0)))
+            raise
 
     def st_Pass(self, st, s, cx):
         yield st, None
@@ -224,7 +229,7 @@ class StmtMixin:
             return
         if decl[1] not in ("any", "V"):
             self.side_obligation("type", "%s.%s" % (decl[0], mattr), st, o.is_type(v.e, decl[1]))
-        st.wr(mattr, r, v.e)
+        st.wr(decl[0] + "." + mattr, r, v.e)
 
     def setitem(self, st, c, k, v, cx):
         o = self.o
@@ -441,7 +446,7 @@ class StmtMixin:
                     continue
                 if not o.refcls(st1, d, ("dict",)):
                     raise Unsupported("iteration over .%s() of a non-dict (%s)" % (node.func.attr, d.ty))
-                yield st1, self.dict_iter(st1, o.r(d), node.func.attr)
+                yield st1, self.dict_iter(st1, o.r(d), node.func.attr, d)
             return
         if isinstance(node, ast.Call) and ast.unparse(node.func) == "zip" and len(node.args) == 2:
             a0, a1 = node.args
@@ -472,15 +477,15 @@ class StmtMixin:
 
                 def elem(s, i, items=items):
                     v = z3.Select(items, i)
-                    s.assume(z3.Implies(w.V.is_ref(v), w.V.r(v) <= s.alloc))
+                    s.assume(z3.Implies(w.V.is_ref(v), z3.And(w.V.r(v) > 0, w.V.r(v) <= s.alloc)))
                     return SV(v)
                 yield st1, IterSrc(n, elem, "sequence")
             elif kind == "dict":
-                yield st1, self.dict_iter(st1, o.r(c), "keys")
+                yield st1, self.dict_iter(st1, o.r(c), "keys", c)
             else:
                 raise Unsupported("iteration over %s" % c.ty)
 
-    def dict_iter(self, st, r, what):
+    def dict_iter(self, st, r, what, dsv=None):
         o, w = self.o, self.w
         keys, mp, n = st.rd("$keys", r), st.rd("$map", r), st.rd("$len", r)
         st.assume(n >= 0)
@@ -491,13 +496,24 @@ class StmtMixin:
             v = z3.Select(mp, k)
             # dict well-formedness at index i (of the dict as it was when iteration started)
             s.assume(z3.Implies(z3.And(i >= 0, i < n), z3.And(z3.Select(dom, k), z3.Select(pos, k) == i)))
-            s.assume(z3.Implies(w.V.is_ref(v), w.V.r(v) <= s.alloc))
+            s.assume(z3.Implies(w.V.is_ref(v), z3.And(w.V.r(v) > 0, w.V.r(v) <= s.alloc)))
             s.terms.append(("key", k))
+            kt = vt = None
+            if dsv is not None and dsv.aux:
+                aux = dsv.aux
+                if aux.get("k"):
+                    s.assume(z3.Implies(z3.And(i >= 0, i < n), self.o.is_type(k, aux["k"])))
+                    kt = aux["k"]
+                if aux.get("v") and aux["v"] not in ("any", "V"):
+                    s.assume(z3.Implies(z3.And(i >= 0, i < n), self.o.is_type(v, aux["v"])))
+                    vt = aux["v"] if not aux["v"].startswith("opt:") else None
+                    if aux.get("link"):
+                        s.assume(z3.Implies(z3.And(i >= 0, i < n), s.rd("BaseField." + aux["link"], w.V.r(v)) == k))
             if what == "keys":
-                return SV(k)
+                return SV(k, kt)
             if what == "values":
-                return SV(v)
-            return [SV(k), SV(v)]
+                return SV(v, vt)
+            return [SV(k, kt), SV(v, vt)]
         return IterSrc(n, elem, "dict." + what)
 
     def st_For(self, st, s, cx):
@@ -554,7 +570,7 @@ class StmtMixin:
                 nv = SV(w.freshV(n), prev.ty if (prev is not None and n in keep_hint) else None)
                 if nv.ty and nv.e is not None:
                     h.assume(o.is_type(nv.e, nv.ty))
-                h.assume(z3.Implies(w.V.is_ref(nv.e), w.V.r(nv.e) <= h.alloc))
+                h.assume(z3.Implies(w.V.is_ref(nv.e), z3.And(w.V.r(nv.e) > 0, w.V.r(nv.e) <= h.alloc)))
                 if prev is not None or n in self.assigned_names(s.body):
                     h.locals[n] = nv
             return h
